@@ -31,8 +31,7 @@ type Case struct {
 	Probes []string `json:"probes,omitempty"`
 
 	// def, session
-	Items  []Item `json:"items,omitempty"`
-	NoLock bool   `json:"nolock,omitempty"` // leave the swank package as shipped
+	Items []Item `json:"items,omitempty"`
 }
 
 func pickMargin(r *rand.Rand) int {
@@ -51,9 +50,9 @@ const (
 
 func nCases(tier string) int {
 	if tier == "thorough" {
-		return len(fixedCases()) + cycle*8000
+		return len(fixedCases()) + cycle*3500
 	}
-	return len(fixedCases()) + cycle*500
+	return len(fixedCases()) + cycle*350
 }
 
 func gen(r *rand.Rand, i int, tier string) Case {
@@ -617,23 +616,21 @@ func init() {
 			"pretty-printer layout) : 2 definitions (package, flavor, flavor instance, class, class instance, generic function with methods; reloaded from " +
 			"their load form text in a fresh process) : 2 sessions (5-25 defvar/defparameter/defconstant/defun/defmacro/defflavor(+instance)/defgeneric+" +
 			"defmethod/defpackage/setq-of-a-standard-variable items -> snapshot -> fresh process -> load -> snapshot -> probes), each at margins drawn from " +
-			"20..120; distinct = distinct case JSON; non-trivial = slip accepted the original definition. About one case in six carries exactly one " +
-			"avoid-set construct (feat=...; counters dirty:<construct>), all others avoid all of them: plain symbols as data, symbols/lists as hash " +
-			"values, non symbol/string/number hash keys, several hash entries in a snapshot, fill pointers, empty vectors, array attributes in snapshots, " +
-			"long floats with inexact decimal digits, backquote templates, documentation that wraps (sessions), unspecialized method parameters, slot " +
-			"accessors in class load forms, quoted flavor defaults, list/symbol slot values of instances, flavor parents, more than one flavor or a proper " +
-			"inittable subset per session, flavor methods and classes in sessions, variables/functions/exports of user packages in sessions, undefined " +
-			"callees, a failed send before a snapshot, the unlocked swank package",
+			"20..120; distinct = distinct case JSON; non-trivial = slip accepted the original definition. Flavors come in inheritance chains of up to " +
+			"three levels whose children re-declare inherited variables with an ancestor's or a new default. About one case in six carries exactly one " +
+			"avoid-set construct (feat=...; counters dirty:<construct>), all others avoid all of them: plain symbols as data, empty vectors, fill " +
+			"pointers and array attributes in snapshots, long floats with inexact decimal digits, backquote templates, documentation that wraps " +
+			"(sessions), slot accessors in class load forms, quoted flavor defaults, parents with variables lacking accessors, proper inittable subsets " +
+			"in children, unrelated flavors in one session, flavor methods and classes in sessions, variables/functions/exports of user packages in " +
+			"sessions, undefined callees, a failed send before a snapshot",
 		N:        nCases,
 		Gen:      gen,
 		Exec:     exec,
-		Init:     lockSwank,
 		Batch:    250,
 		HangSecs: 300,
 		Assumptions: []string{
 			"the reader is trusted to read the printed text (checked by C02/C03); structure is compared through the harness's own renderer",
 			"behavioural equality is judged on a finite set of probe calls per definition",
-			"the swank package is locked by the harness in every world except the cases marked nolock (finding: it ships unlocked and makes every snapshot unloadable)",
 		},
 	})
 }
